@@ -50,6 +50,9 @@ def run(repo: Repo, tier: str) -> Report:
     if len(params) != 7:
         raise AnalysisError(f"missing anchor: _iteragg(self, func, n, dim, begin, end, method) in {FILE}")
     _, p_func, p_n, p_dim, p_begin, p_end, p_method = params
+    from ..rules import r_truthy
+    r_truthy(rep, repo, CLS, "_iteragg", [p_begin, p_end], "0 / 0.0 is a legitimate label of a numeric axis; a truth test treats it as 'not given' and falls back to the first / last step",
+             afile=FILE, module=MOD)
     cfg = CFG(fn)
     rep.analysed = {"function": f"{FILE}:{CLS}._iteragg", "cfg_nodes": len(cfg.nodes)}
     N = Normaliser()
